@@ -97,12 +97,12 @@ theorem scaled_cbrt_le' {k t ε : ℝ} (ht : 0 < t) (hk : 0 ≤ k) (h1 : k * (t 
 
 theorem srgbToLinear_upper {x : ℝ} (hx : 0.04045 < x) :
     srgbToLinear x = Real.exp (2.4 * Real.log ((x + 0.055) / 1.055)) := by
-  simp only [srgbToLinear, powPos_real, num_ofSci]
+  simp only [srgbToLinear, powPos_real, num_ofSci, num_select]
   rw [if_pos (by norm_num at hx ⊢; exact hx)]
   norm_num
 
 theorem srgbToLinear_lower {x : ℝ} (hx : x ≤ 0.04045) : srgbToLinear x = x / 12.92 := by
-  simp only [srgbToLinear, powPos_real, num_ofSci]
+  simp only [srgbToLinear, powPos_real, num_ofSci, num_select]
   rw [if_neg (by norm_num at hx ⊢; exact hx)]
   norm_num
 
@@ -112,12 +112,12 @@ theorem linearToSrgb_upper {y : ℝ} (hy : 0.0031308 < y) :
     apply maxN_eq_left_of_lt
     rw [num_ofSci]; norm_num at hy ⊢; exact hy
   simp only [linearToSrgb, hm, powPos_real]
-  simp only [num_ofSci, num_ofNat]
+  simp only [num_ofSci, num_ofNat, num_select]
   rw [if_pos (by norm_num at hy ⊢; exact hy)]
   norm_num
 
 theorem linearToSrgb_lower {y : ℝ} (hy : y ≤ 0.0031308) : linearToSrgb y = 12.92 * y := by
-  simp only [linearToSrgb, powPos_real, num_ofSci]
+  simp only [linearToSrgb, powPos_real, num_ofSci, num_select]
   rw [if_neg (by norm_num at hy ⊢; exact hy)]
   norm_num
 
